@@ -248,7 +248,7 @@ class Dispatcher:
             ),
             "/status/heating/total_seconds": (
                 heating,
-                lambda _: True,
+                between(0, 100 * 365 * 86400),
                 lambda _: "total_seconds",
                 to_int,
                 True,
